@@ -128,6 +128,7 @@ def run_check(prop, tier, seed):
         procs.append((i, p, out, casef, log))
 
     results = []
+    partial_results = []
     harness_errors = []
     crash_failures = []
     killed = 0
@@ -140,6 +141,14 @@ def run_check(prop, tier, seed):
             p.wait()
             killed += 1
             log.close()
+            # what the shard had finished before the wall limit still counts
+            part = Path(str(out) + ".part")
+            if part.exists():
+                try:
+                    with open(part) as f:
+                        partial_results.append(json.load(f))
+                except Exception:  # noqa: BLE001 - a half written checkpoint is simply not used
+                    pass
             continue
         log.close()
         if out.exists():
@@ -182,7 +191,7 @@ def run_check(prop, tier, seed):
     merged = {}
     order = []
     known_lines = []
-    for res in results:
+    for res in results + partial_results:
         for kl in res.get("known_lines", []):
             known_lines.append(kl)
         for s in res["subs"]:
@@ -299,6 +308,7 @@ def run_check(prop, tier, seed):
             "shards_started": NSHARDS,
             "shards_finished": len(results),
             "shards_killed_at_wall_limit": killed,
+            "shards_partial_results_used": len(partial_results),
             "known_findings_reproduced": sorted(printed),
             "engine": "hypothesis (seeded, database=None, shrink budget bounded) + finite enumerations",
         },
@@ -329,6 +339,14 @@ def run_check(prop, tier, seed):
         f"{len(viol_lines)} violation(s), {len(printed)} known finding(s), "
         f"{len(results)}/{NSHARDS} shards finished, {wall:.1f}s"
     )
+    starved = [m["name"] for m in merged.values() if m["evaluations"] == 0]
+    if not viol_lines and (evaluations == 0 or len(results) + len(partial_results) == 0):
+        print(
+            f"INCONCLUSIVE property={prop}: no case was evaluated within the wall limit "
+            f"({killed} of {NSHARDS} shards killed) - nothing is claimed by this run"
+        )
+    elif starved:
+        print(f"note: sub-checks without any evaluated case in this run (time budget): {', '.join(starved)}")
     if viol_lines:
         return 1
     if harness_errors:
